@@ -478,6 +478,84 @@ theorem setAt_other (l : List Bool) (n m : Nat) (v : Bool) (h : m ≠ n) : (setA
       | zero => simp [setAt]
       | succ k => simp [setAt]; exact ih j k (by omega)
 
+/-! ## OPP: resynchronisation after idle -/
+
+/-- frame lengths the automaton can be waiting for -/
+def NeedOk : AMode → Prop
+  | .body _ need => 1 ≤ need ∧ need ≤ 9
+  | _ => True
+
+theorem aStep_needOk (m : AMode) (b : Nat) (h : NeedOk m) : NeedOk (aStep m b).1 := by
+  cases m with
+  | idle => simp only [aStep]; split <;> (try split) <;> simp [NeedOk]
+  | lost => simp only [aStep]; split <;> simp [NeedOk]
+  | hdr a => simp only [aStep]; split <;> (try split) <;> simp [NeedOk]
+  | body acc n =>
+    simp only [NeedOk] at h
+    simp only [aStep]; split <;> simp [NeedOk]; omega
+
+theorem feed_needOk (l : Bytes) : ∀ m, NeedOk m → NeedOk (feed aStep m l).1 := by
+  induction l with
+  | nil => intro m h; exact h
+  | cons b r ih => intro m h; rw [feed_cons]; exact ih _ (aStep_needOk m b h)
+
+theorem idle_eoms (k : Nat) : (feed aStep .idle (List.replicate k EOM)).1 = .idle := by
+  induction k with
+  | zero => rfl
+  | succ n ih =>
+    rw [List.replicate_succ, feed_cons]
+    have : aStep .idle EOM = (.idle, []) := by decide
+    rw [this]; exact ih
+
+theorem lost_eoms (k : Nat) : (feed aStep .lost (List.replicate k EOM)).1 = .lost := by
+  induction k with
+  | zero => rfl
+  | succ n ih =>
+    rw [List.replicate_succ, feed_cons]
+    have : aStep .lost EOM = (.lost, []) := by decide
+    rw [this]; exact ih
+
+/-- eleven idle bytes bring every reachable automaton state to `idle` or `lost` -/
+theorem eoms_settle (m : AMode) (h : NeedOk m) :
+    (feed aStep m (List.replicate 11 EOM)).1 = .idle ∨ (feed aStep m (List.replicate 11 EOM)).1 = .lost := by
+  cases m with
+  | idle => exact Or.inl (idle_eoms 11)
+  | lost => exact Or.inr (lost_eoms 11)
+  | hdr a =>
+    right
+    rw [show (11 : Nat) = 10 + 1 from rfl, List.replicate_succ, feed_cons]
+    have : aStep (.hdr a) EOM = (.lost, []) := by simp [aStep, EOM, CMD_INP, CMD_MTX]
+    rw [this]; exact lost_eoms 10
+  | body acc need =>
+    left
+    simp only [NeedOk] at h
+    have e : List.replicate 11 EOM = List.replicate need EOM ++ List.replicate (11 - need) EOM := by
+      rw [List.replicate_append_replicate]; congr 1; omega
+    rw [e, run_body (List.replicate need EOM) acc need _ (by simp) h.1]
+    exact idle_eoms _
+
+/-- from `idle` or `lost` a well-formed input frame is decoded exactly and leaves the decoder idle -/
+theorem frame_from_rest (m : AMode) (hm : m = .idle ∨ m = .lost) (a : Nat) (p : Bytes) (ha : isAddr a = true)
+    (hp : p.length = 5) : feed aStep m (a :: CMD_INP :: p) = (.idle, [a :: CMD_INP :: p]) := by
+  have h2 : feed aStep (.hdr a) (CMD_INP :: p) = (.idle, [a :: CMD_INP :: p]) := by
+    rw [feed_cons]
+    simp only [aStep, if_true, List.nil_append]
+    have := run_body p [a, CMD_INP] 5 [] hp (by omega)
+    simp only [List.append_nil] at this
+    rw [this]; simp [feed]
+  rcases hm with rfl | rfl <;> (rw [feed_cons]; simp only [aStep, ha, if_true, List.nil_append]; rw [h2])
+
+theorem matrix_frame_from_rest (m : AMode) (hm : m = .idle ∨ m = .lost) (a : Nat) (p : Bytes) (ha : isAddr a = true)
+    (hp : p.length = 9) : feed aStep m (a :: CMD_MTX :: p) = (.idle, [a :: CMD_MTX :: p]) := by
+  have hne : CMD_MTX ≠ CMD_INP := by decide
+  have h2 : feed aStep (.hdr a) (CMD_MTX :: p) = (.idle, [a :: CMD_MTX :: p]) := by
+    rw [feed_cons]
+    simp only [aStep, hne, if_false, if_true, List.nil_append]
+    have := run_body p [a, CMD_MTX] 9 [] hp (by omega)
+    simp only [List.append_nil] at this
+    rw [this]; simp [feed]
+  rcases hm with rfl | rfl <;> (rw [feed_cons]; simp only [aStep, ha, if_true, List.nil_append]; rw [h2])
+
 /-! ## FAST writer -/
 
 theorem wRun_append (s : WSt) (a b : List WOp) : wRun s (a ++ b) = wRun (wRun s a) b := by
